@@ -8,17 +8,31 @@ Rec == ndJsonDeserialize(IOEnv.TRACE)
 VARIABLES i, dead, bad, st
 vars == <<i, dead, bad, st>>
 St0 == [recs |-> 0, hists |-> 0, fields |-> 0, fits |-> 0, overflow_kept |-> 0, trunc |-> 0, trunc_left |-> 0, trunc_centre |-> 0, trunc_right |-> 0,
-        straddle |-> 0, zero_width |-> 0, multibyte_trunc |-> 0, wide |-> 0, wide_trimmed |-> 0, big |-> 0, centre_odd |-> 0]
+        straddle |-> 0, zero_width |-> 0, multibyte_trunc |-> 0, wide |-> 0, wide_after_field |-> 0, wide_after_overflow |-> 0, bar_fields |-> 0, bar_fields_padded |-> 0, wide_trimmed |-> 0, big |-> 0, centre_odd |-> 0]
 
 IsTrunc(r) == ~Fits(r.m, r.w) /\ r.tr
 (* the width of a wide_msg field is what the literals leave of the terminal width *)
-WidthOK(r) == r.kind # "wide" \/ (r.w = WideWidth(r.tw, r.pre, r.suf) /\ r.tr)
+IsWide(r) == r.kind \in {"wide", "wide2"}
+WidthOK(r) == ~IsWide(r) \/ (r.w = WideWidth(r.tw, r.pre, r.suf) /\ r.tr)
+(* kind "bar": [{bar:<al><W>}] - the field is W columns wide: floor(W / cw) progress clusters of cw columns each and blanks on the side(s) of the alignment *)
+RECURSIVE LeadBl(_, _)
+LeadBl(s, j) == IF j > Len(s) \/ s[j] # SP THEN 0 ELSE 1 + LeadBl(s, j + 1)
+StripBl(s) == IF LeadBl(s, 1) = Len(s) THEN <<>> ELSE SubSeq(s, LeadBl(s, 1) + 1, Len(s) - TrailSP(s, Len(s)))
+BarFieldOK(r) ==
+    /\ Len(r.out) >= Len(r.pre) + Len(r.suf)
+    /\ SubSeq(r.out, 1, Len(r.pre)) = r.pre /\ SubSeq(r.out, Len(r.out) - Len(r.suf) + 1, Len(r.out)) = r.suf
+    /\ LET F == SubSeq(r.out, Len(r.pre) + 1, Len(r.out) - Len(r.suf))
+           bar == StripBl(F)
+       IN /\ Len(bar) = r.w \div r.cw
+          /\ \A j \in 1..Len(bar) : CW(bar[j]) = r.cw /\ \E g \in 1..Len(r.chars) : bar[j] = r.chars[g]
+          /\ FieldOK(F, bar, r.w, r.al, FALSE)
 Rule(r) ==
     IF r.panic # "" THEN "NoPanic"
     ELSE IF ~WidthOK(r) THEN "InputOK"
     ELSE IF r.tplerr # "" THEN "TemplateOK"
     ELSE IF r.nstr < 1 THEN "Painted"
-    ELSE IF LineOK(r.out, r.pre, r.suf, r.m, r.w, r.al, r.tr, r.kind = "wide") THEN ""
+    ELSE IF r.kind = "bar" THEN (IF BarFieldOK(r) THEN "" ELSE "BarPadOK")
+    ELSE IF LineOK(r.out, r.pre, r.suf, r.m, r.w, r.al, r.tr, IsWide(r)) THEN ""
     ELSE IF Fits(r.m, r.w) THEN "PadOK"
     ELSE IF ~r.tr THEN "OverflowKept"
     ELSE "TruncOK"
@@ -35,8 +49,9 @@ Count(s, r) ==
               !.straddle = @ + B(IsTrunc(r) /\ \E lo \in Starts(Cols(r.m) - r.w, r.al) : HasStraddler(r.m, lo, lo + r.w)),
               !.zero_width = @ + B(IsTrunc(r) /\ HasZW(r.m)),
               !.multibyte_trunc = @ + B(IsTrunc(r) /\ \E j \in 1..Len(r.m) : r.m[j] = 233 \/ CW(r.m[j]) = 2),
-              !.wide = @ + B(r.kind = "wide"),
-              !.wide_trimmed = @ + B(r.kind = "wide" /\ r.suf = <<>> /\ r.panic = "" /\ Fits(r.m, r.w) /\ Len(r.out) < Len(r.pre) + Len(r.m) + (r.w - Cols(r.m))),
+              !.wide = @ + B(IsWide(r)), !.wide_after_field = @ + B(r.kind = "wide2"), !.wide_after_overflow = @ + B(r.kind = "wide2" /\ Cols(r.pm) > r.pw),
+              !.bar_fields = @ + B(r.kind = "bar"), !.bar_fields_padded = @ + B(r.kind = "bar" /\ r.w % r.cw = 1),
+              !.wide_trimmed = @ + B(IsWide(r) /\ r.suf = <<>> /\ r.panic = "" /\ Fits(r.m, r.w) /\ Len(r.out) < Len(r.pre) + Len(r.m) + (r.w - Cols(r.m))),
               !.big = @ + B(r.w >= 255),
               !.centre_odd = @ + B(r.al = "^" /\ Fits(r.m, r.w) /\ (r.w - Cols(r.m)) % 2 = 1)]
 
